@@ -38,6 +38,10 @@ pub enum Finish {
         /// also issue `write(&[])` calls between the pieces (forwarding loops do that)
         #[serde(default)]
         zero_writes: bool,
+        /// which entry point of `std::io::Write` writes the pieces: 0 write_all, 1 write in a
+        /// loop, 2 write_vectored, 3 write! (write_fmt)
+        #[serde(default)]
+        how: u8,
     },
     /// `respond()` with a body reader that fails (error, or panic) after `fail_after` bytes of a
     /// declared `declared_len`: whatever was written, no second response may follow
